@@ -26,138 +26,172 @@ Proof. reflexivity. Qed.
 Definition dmax (md hc : nat) : nat := Nat.max 1 (md - hc).
 
 (* what graph_growth adds below a node whose children sit at height hc *)
-Definition kids_ok (rq : req) (md hc : nat) (kids : list tree) : Prop :=
-  min_arity rq <= length kids <= max_arity rq /\
-  forall k, In k kids -> tdepth k <= dmax md hc /\ arity_ok rq k = true.
+Definition node_ok (rq : req) (partial : bool) (t : tree) : Prop :=
+  arity_upper_ok rq t = true /\ (partial = false -> arity_ok rq t = true).
 
-Lemma offspring_spec : forall rq md hc ntypes (rec : list nat -> res (list tree * list nat)) may_grow,
-  (forall cs kids cs', rec cs = Ok (kids, cs') -> kids_ok rq md (S hc) kids) ->
-  may_grow = negb (md - 1 <=? hc) ->
-  forall n cs l cs', offspring rec may_grow ntypes n cs = Ok (l, cs') ->
-  length l = n /\ forall t, In t l -> tdepth t <= dmax md hc /\ arity_ok rq t = true.
+Definition kids_ok (rq : req) (partial : bool) (md hc : nat) (kids : list tree) : Prop :=
+  length kids <= max_arity rq /\ (partial = false -> min_arity rq <= length kids) /\
+  forall k, In k kids -> tdepth k <= dmax md hc /\ node_ok rq partial k.
+
+Lemma arity_upper_node : forall rq n kids,
+  arity_upper_ok rq (T n kids) = (length kids <=? max_arity rq) && forallb (arity_upper_ok rq) kids.
+Proof. reflexivity. Qed.
+
+Lemma node_ok_intro : forall rq partial n kids,
+  length kids <= max_arity rq -> (partial = false -> min_arity rq <= length kids) ->
+  (forall k, In k kids -> node_ok rq partial k) -> node_ok rq partial (T n kids).
 Proof.
-  intros rq md hc ntypes rec may_grow Hrec Hm. induction n as [|n IH]; simpl; intros cs l cs' H.
-  - inversion H; subst. split; auto. intros t [].
-  - destruct (draw cs) as (nm, cs1).
-    destruct (if may_grow then let '(coin, cs2) := draw cs1 in if coin =? 0 then Ok ([], cs2) else rec cs2
-              else Ok ([], cs1)) as [(kids, cs3)|] eqn:Esub; [|discriminate].
-    destruct (offspring rec may_grow ntypes n cs3) as [(rest, cs4)|] eqn:Erest; [|discriminate].
-    inversion H; subst. destruct (IH _ _ _ Erest) as (Hl & Hall). split; [simpl; auto|].
-    intros t [<-|Hin]; [|auto].
-    assert (Hleaf : tdepth (T (nm mod ntypes) []) <= dmax md hc /\ arity_ok rq (T (nm mod ntypes) []) = true).
-    { split; [simpl; unfold dmax; lia|reflexivity]. }
-    destruct (negb (md - 1 <=? hc)) eqn:Hm.
-    + destruct (draw cs1) as (coin, cs2). destruct (coin =? 0).
-      * inversion Esub; subst. auto.
-      * apply Hrec in Esub. destruct Esub as ((Hlo & Hhi) & Hk).
-        apply negb_true_iff, Nat.leb_gt in Hm. split.
-        -- replace (dmax md hc) with (S (dmax md (S hc))) by (unfold dmax; lia).
-           apply tdepth_node. intros k Hk'. apply Hk. auto.
-        -- rewrite arity_ok_node. apply andb_true_iff. split.
-           ++ apply orb_true_iff. right. apply andb_true_iff. split; apply Nat.leb_le; auto.
-           ++ apply forallb_forall. intros k Hk'. apply Hk. auto.
-    + inversion Esub; subst. auto.
+  intros rq partial n kids Hhi Hlo Hk. split.
+  - rewrite arity_upper_node. apply andb_true_iff. split; [apply Nat.leb_le; auto|].
+    apply forallb_forall. intros k Hin. apply Hk. auto.
+  - intros Hp. rewrite arity_ok_node. apply andb_true_iff. split.
+    + apply orb_true_iff. right. apply andb_true_iff. split; apply Nat.leb_le; auto.
+    + apply forallb_forall. intros k Hin. apply Hk; auto.
 Qed.
 
-Lemma growth_spec : forall fuel rq md ntypes h cs kids cs',
-  growth fuel rq md ntypes h cs = Ok (kids, cs') -> kids_ok rq md (S h) kids.
+Lemma node_ok_leaf : forall rq partial n, node_ok rq partial (T n []).
+Proof. intros. split; [reflexivity|intros; reflexivity]. Qed.
+
+Lemma offspring_spec : forall rq partial md hc ntypes (rec : list nat -> res (list tree * list nat)) may_grow,
+  (forall cs kids cs', rec cs = Ok (kids, cs') -> kids_ok rq partial md (S hc) kids) ->
+  may_grow = negb (md - 1 <=? hc) ->
+  forall n cs l cs', offspring rec may_grow partial ntypes n cs = Ok (l, cs') ->
+  length l <= n /\ (partial = false -> length l = n) /\
+  forall t, In t l -> tdepth t <= dmax md hc /\ node_ok rq partial t.
 Proof.
-  induction fuel as [|k IH]; simpl; intros rq md ntypes h cs kids cs' H; [discriminate|].
+  intros rq partial md hc ntypes rec may_grow Hrec Hm. induction n as [|n IH]; simpl; intros cs l cs' H.
+  - inversion H; subst. split; auto. split; auto. intros t [].
+  - destruct (draw cs) as (c, cs1). destruct (get_node partial ntypes c) as [nm|] eqn:Eg.
+    + destruct (if may_grow then let '(coin, cs2) := draw cs1 in if coin =? 0 then Ok ([], cs2) else rec cs2
+                else Ok ([], cs1)) as [(kids, cs3)|] eqn:Esub; [|discriminate].
+      destruct (offspring rec may_grow partial ntypes n cs3) as [(rest, cs4)|] eqn:Erest; [|discriminate].
+      inversion H; subst l cs4. destruct (IH _ _ _ Erest) as (Hl & Hl' & Hall).
+      split; [simpl; lia|]. split; [intros Hp; simpl; rewrite Hl'; auto|].
+      intros t [<-|Hin]; [|auto].
+      assert (Hleaf : tdepth (T nm []) <= dmax md hc /\ node_ok rq partial (T nm [])).
+      { split; [simpl; unfold dmax; lia|apply node_ok_leaf]. }
+      destruct may_grow.
+      * destruct (draw cs1) as (coin, cs2). destruct (coin =? 0).
+        -- inversion Esub; subst. auto.
+        -- apply Hrec in Esub. destruct Esub as (Hhi & Hlo & Hk).
+           symmetry in Hm. apply negb_true_iff, Nat.leb_gt in Hm. split.
+           ++ replace (dmax md hc) with (S (dmax md (S hc))) by (unfold dmax; lia).
+              apply tdepth_node. intros k Hk'. apply Hk. auto.
+           ++ apply node_ok_intro; auto. intros k Hk'. apply Hk. auto.
+      * inversion Esub; subst. auto.
+    + destruct (IH _ _ _ H) as (Hl & Hl' & Hall). split; [lia|]. split; auto.
+      intros Hp. subst partial. simpl in Eg. discriminate.
+Qed.
+
+Lemma growth_spec : forall fuel rq md partial ntypes h cs kids cs',
+  growth fuel rq md partial ntypes h cs = Ok (kids, cs') -> kids_ok rq partial md (S h) kids.
+Proof.
+  induction fuel as [|k IH]; simpl; intros rq md partial ntypes h cs kids cs' H; [discriminate|].
   destruct (max_arity rq <? min_arity rq) eqn:Er; [discriminate|]. apply Nat.ltb_ge in Er.
   destruct (draw cs) as (a, cs1).
-  apply (offspring_spec rq md (S h) ntypes _ _ (fun cs kids cs' => IH rq md ntypes (S h) cs kids cs') eq_refl) in H.
-  destruct H as (Hl & Hall). split; auto. rewrite Hl.
-  pose proof (Nat.mod_upper_bound a (max_arity rq - min_arity rq + 1)). lia.
+  apply (offspring_spec rq partial md (S h) ntypes _ _
+           (fun cs kids cs' => IH rq md partial ntypes (S h) cs kids cs') eq_refl) in H.
+  destruct H as (Hl & Hl' & Hall).
+  pose proof (Nat.mod_upper_bound a (max_arity rq - min_arity rq + 1)).
+  split; [lia|]. split; auto. intros Hp. rewrite Hl' by auto. lia.
 Qed.
 
 (* growth never runs out of fuel; the only exception is randint's for an empty range *)
-Lemma offspring_total : forall (rec : list nat -> res (list tree * list nat)) may_grow ntypes,
+Lemma offspring_total : forall (rec : list nat -> res (list tree * list nat)) may_grow partial ntypes,
   (may_grow = true -> forall cs, exists r, rec cs = Ok r) ->
-  forall n cs, exists r, offspring rec may_grow ntypes n cs = Ok r.
+  forall n cs, exists r, offspring rec may_grow partial ntypes n cs = Ok r.
 Proof.
-  intros rec may_grow ntypes Hrec. induction n as [|n IH]; simpl; intros cs; [eauto|].
-  destruct (draw cs) as (nm, cs1).
+  intros rec may_grow partial ntypes Hrec. induction n as [|n IH]; simpl; intros cs; [eauto|].
+  destruct (draw cs) as (c, cs1). destruct (get_node partial ntypes c) as [nm|]; [|apply IH].
   assert (Hsub : exists r, (if may_grow then let '(coin, cs2) := draw cs1 in if coin =? 0 then Ok ([], cs2) else rec cs2
                             else Ok ([], cs1)) = Ok r).
   { destruct may_grow; [|eauto]. destruct (draw cs1) as (coin, cs2). destruct (coin =? 0); eauto. }
   destruct Hsub as ((kids, cs3) & ->). destruct (IH cs3) as ((rest, cs4) & ->). eauto.
 Qed.
 
-Lemma growth_total : forall fuel rq md ntypes h cs, min_arity rq <= max_arity rq ->
-  1 <= fuel -> md <= fuel + S h -> exists r, growth fuel rq md ntypes h cs = Ok r.
+Lemma growth_total : forall fuel rq md partial ntypes h cs, min_arity rq <= max_arity rq ->
+  1 <= fuel -> md <= fuel + S h -> exists r, growth fuel rq md partial ntypes h cs = Ok r.
 Proof.
-  induction fuel as [|k IH]; intros rq md ntypes h cs Hr Hf Hm; [lia|]. simpl.
+  induction fuel as [|k IH]; intros rq md partial ntypes h cs Hr Hf Hm; [lia|]. simpl.
   destruct (max_arity rq <? min_arity rq) eqn:Er; [apply Nat.ltb_lt in Er; lia|].
   destruct (draw cs) as (a, cs1). apply offspring_total.
   intros Hg cs'. apply negb_true_iff, Nat.leb_gt in Hg. apply IH; auto; lia.
 Qed.
 
-Lemma growth_raise : forall fuel rq md ntypes h cs e, 1 <= fuel -> md <= fuel + S h ->
-  growth fuel rq md ntypes h cs = Raise e -> e = ValueError /\ max_arity rq < min_arity rq.
+Lemma growth_raise : forall fuel rq md partial ntypes h cs e, 1 <= fuel -> md <= fuel + S h ->
+  growth fuel rq md partial ntypes h cs = Raise e -> e = ValueError /\ max_arity rq < min_arity rq.
 Proof.
-  intros fuel rq md ntypes h cs e Hf Hm H.
+  intros fuel rq md partial ntypes h cs e Hf Hm H.
   destruct (Nat.lt_ge_cases (max_arity rq) (min_arity rq)) as [Hlt|Hge].
   - destruct fuel; [lia|]. simpl in H. apply Nat.ltb_lt in Hlt. rewrite Hlt in H. inversion H. auto.
     split; auto. apply Nat.ltb_lt. auto.
-  - destruct (growth_total fuel rq md ntypes h cs Hge Hf Hm) as (r & E). congruence.
+  - destruct (growth_total fuel rq md partial ntypes h cs Hge Hf Hm) as (r & E). congruence.
 Qed.
 
 (* ------------------------------------------------------------------ one attempt *)
-Lemma attempt_spec : forall rq arg ntypes cs t,
-  attempt rq (eff_depth rq arg) ntypes cs = Ok t ->
-  tdepth t <= depth_bound rq arg /\ arity_ok rq t = true.
+Lemma attempt_spec : forall rq arg partial ntypes cs t,
+  attempt rq (eff_depth rq arg) partial ntypes cs = Ok (Some t) ->
+  tdepth t <= depth_bound rq arg /\ node_ok rq partial t.
 Proof.
-  intros rq arg ntypes cs t H. unfold attempt in H. destruct (draw cs) as (nm, cs1).
+  intros rq arg partial ntypes cs t H. unfold attempt in H. destruct (draw cs) as (c, cs1).
+  destruct (get_node partial ntypes c) as [nm|]; [|discriminate].
   unfold depth_bound. destruct (1 <? max_depth rq).
-  - destruct (growth (S (eff_depth rq arg)) rq (eff_depth rq arg) ntypes 0 cs1) as [(kids, cs2)|] eqn:E; [|discriminate].
-    inversion H; subst. apply growth_spec in E. destruct E as ((Hlo & Hhi) & Hk). split.
+  - destruct (growth (S (eff_depth rq arg)) rq (eff_depth rq arg) partial ntypes 0 cs1) as [(kids, cs2)|] eqn:E; [|discriminate].
+    inversion H; subst. apply growth_spec in E. destruct E as (Hhi & Hlo & Hk). split.
     + replace (Nat.max (eff_depth rq arg) 2) with (S (dmax (eff_depth rq arg) 1)) by (unfold dmax; lia).
       apply tdepth_node. intros k Hin. apply Hk. auto.
-    + rewrite arity_ok_node. apply andb_true_iff. split.
-      * apply orb_true_iff. right. apply andb_true_iff. split; apply Nat.leb_le; auto.
-      * apply forallb_forall. intros k Hin. apply Hk. auto.
-  - inversion H; subst. split; [simpl; lia|reflexivity].
+    + apply node_ok_intro; auto. intros k Hin. apply Hk. auto.
+  - inversion H; subst. split; [simpl; lia|apply node_ok_leaf].
 Qed.
 
-Lemma attempt_raise : forall rq md ntypes cs e,
-  attempt rq md ntypes cs = Raise e -> e = ValueError /\ max_arity rq < min_arity rq.
+Lemma attempt_raise : forall rq md partial ntypes cs e,
+  attempt rq md partial ntypes cs = Raise e -> e = ValueError /\ max_arity rq < min_arity rq.
 Proof.
-  intros rq md ntypes cs e H. unfold attempt in H. destruct (draw cs) as (nm, cs1).
+  intros rq md partial ntypes cs e H. unfold attempt in H. destruct (draw cs) as (c, cs1).
+  destruct (get_node partial ntypes c) as [nm|]; [|discriminate].
   destruct (1 <? max_depth rq); [|discriminate].
-  destruct (growth (S md) rq md ntypes 0 cs1) as [(kids, cs2)|e'] eqn:E; [discriminate|].
+  destruct (growth (S md) rq md partial ntypes 0 cs1) as [(kids, cs2)|e'] eqn:E; [discriminate|].
   inversion H; subst. apply growth_raise in E; auto; lia.
 Qed.
 
 (* ------------------------------------------------------------------ (4) random_graph *)
-Lemma rg_loop_spec : forall V rq arg ntypes max_attempts fuel n_iter attempts,
+Lemma rg_loop_spec : forall V rq arg partial ntypes max_attempts fuel n_iter attempts,
   n_iter <= max_attempts -> max_attempts + 2 <= fuel + n_iter ->
-  match rg_loop fuel V rq (eff_depth rq arg) ntypes max_attempts n_iter attempts with
-  | (Ok t, n) => V t = true /\ tdepth t <= depth_bound rq arg /\ arity_ok rq t = true /\
+  match rg_loop fuel V rq (eff_depth rq arg) partial ntypes max_attempts n_iter attempts with
+  | (Ok t, n) => V t = true /\ tdepth t <= depth_bound rq arg /\ node_ok rq partial t /\
                  n_iter < n <= max_attempts
   | (Raise e, n) => e = ValueError /\ (max_arity rq < min_arity rq \/ n = S max_attempts)
   end.
 Proof.
-  intros V rq arg ntypes max_attempts. induction fuel as [|k IH]; intros n_iter attempts Hn Hf; [lia|].
-  simpl. destruct (attempt rq (eff_depth rq arg) ntypes (hd [] attempts)) as [t|e] eqn:Ea.
+  intros V rq arg partial ntypes max_attempts. induction fuel as [|k IH]; intros n_iter attempts Hn Hf; [lia|].
+  simpl. destruct (attempt rq (eff_depth rq arg) partial ntypes (hd [] attempts)) as [ot|e] eqn:Ea.
   - destruct (max_attempts <? S n_iter) eqn:El.
     + apply Nat.ltb_lt in El. split; auto. right. lia.
-    + apply Nat.ltb_ge in El. destruct (V t) eqn:Ev.
-      * apply attempt_spec in Ea. destruct Ea. repeat split; auto.
-      * specialize (IH (S n_iter) (tl attempts) El ltac:(lia)).
-        destruct (rg_loop k V rq (eff_depth rq arg) ntypes max_attempts (S n_iter) (tl attempts)) as ([t'|e'], n); auto.
-        destruct IH as (H1 & H2 & H3 & H4). repeat split; auto; lia.
+    + apply Nat.ltb_ge in El.
+      assert (Hrec : match rg_loop k V rq (eff_depth rq arg) partial ntypes max_attempts (S n_iter) (tl attempts) with
+                     | (Ok t, n) => V t = true /\ tdepth t <= depth_bound rq arg /\ node_ok rq partial t /\
+                                    n_iter < n <= max_attempts
+                     | (Raise e, n) => e = ValueError /\ (max_arity rq < min_arity rq \/ n = S max_attempts)
+                     end).
+      { specialize (IH (S n_iter) (tl attempts) El ltac:(lia)).
+        destruct (rg_loop k V rq (eff_depth rq arg) partial ntypes max_attempts (S n_iter) (tl attempts)) as ([t'|e'], n); auto.
+        destruct IH as (H1 & H2 & H3 & H4). repeat split; auto; lia. }
+      destruct ot as [t|]; auto. destruct (V t) eqn:Ev; auto.
+      apply attempt_spec in Ea. destruct Ea. repeat split; auto.
   - apply attempt_raise in Ea. destruct Ea. split; auto.
 Qed.
 
-Theorem random_graph_contract : forall V rq arg ntypes max_attempts attempts,
-  match random_graph V rq arg ntypes max_attempts attempts with
-  | (Ok t, n) => V t = true /\ tdepth t <= depth_bound rq arg /\ arity_ok rq t = true /\ 1 <= n <= max_attempts
+Theorem random_graph_contract : forall V rq arg partial ntypes max_attempts attempts,
+  match random_graph V rq arg partial ntypes max_attempts attempts with
+  | (Ok t, n) => V t = true /\ tdepth t <= depth_bound rq arg /\ arity_upper_ok rq t = true /\
+                 (partial = false -> arity_ok rq t = true) /\ 1 <= n <= max_attempts
   | (Raise e, n) => e = ValueError /\ (max_arity rq < min_arity rq \/ n = S max_attempts)
   end.
 Proof.
   intros. unfold random_graph.
-  pose proof (rg_loop_spec V rq arg ntypes max_attempts (S (S max_attempts)) 0 attempts ltac:(lia) ltac:(lia)) as H.
-  destruct (rg_loop (S (S max_attempts)) V rq (eff_depth rq arg) ntypes max_attempts 0 attempts) as ([t|e], n); auto.
+  pose proof (rg_loop_spec V rq arg partial ntypes max_attempts (S (S max_attempts)) 0 attempts ltac:(lia) ltac:(lia)) as H.
+  destruct (rg_loop (S (S max_attempts)) V rq (eff_depth rq arg) partial ntypes max_attempts 0 attempts) as ([t|e], n); auto.
+  destruct H as (H1 & H2 & (H3 & H3') & H4). repeat split; auto; lia.
 Qed.
 
 (* without an override (or with an override of at least 2) the bound is the maximum depth *)
